@@ -17,62 +17,6 @@ import (
 	"rsc.io/binaryregexp"
 )
 
-// Trees enumerates all expression trees with exactly n leaves over atoms with at most nots
-// negations, calling f for each.  THEN operands that the reference semantics does not define are
-// skipped by the caller (WellDefined).
-func trees(atoms []ref.AtomDef, n, nots int, f func(*ref.Node)) {
-	var gen func(n, nots int) []*ref.Node
-	memo := map[[2]int][]*ref.Node{}
-	gen = func(n, nots int) []*ref.Node {
-		k := [2]int{n, nots}
-		if r, ok := memo[k]; ok {
-			return r
-		}
-		var out []*ref.Node
-		if n == 1 {
-			for _, a := range atoms {
-				out = append(out, ref.A(a.Atom))
-			}
-		} else {
-			for l := 1; l < n; l++ {
-				for nl := 0; nl <= nots; nl++ {
-					for _, L := range gen(l, nl) {
-						if exactNots(L) != nl {
-							continue
-						}
-						for _, R := range gen(n-l, nots-nl) {
-							out = append(out, ref.And(L, R), ref.Or(L, R), ref.Then(L, R))
-						}
-					}
-				}
-			}
-		}
-		if nots > 0 {
-			for _, t := range gen(n, nots-1) {
-				if t.Kind != ref.KNot { // no double negation at the same node (covered by 2-not trees through groups)
-					out = append(out, ref.Not(t))
-				}
-			}
-		}
-		memo[k] = out
-		return out
-	}
-	for _, t := range gen(n, nots) {
-		f(t)
-	}
-}
-
-func exactNots(n *ref.Node) int {
-	c := 0
-	if n.Kind == ref.KNot {
-		c = 1
-	}
-	for _, k := range n.Kids {
-		c += exactNots(k)
-	}
-	return c
-}
-
 type caseT struct {
 	node *ref.Node
 	text string
@@ -133,12 +77,12 @@ func Run(tier string) int {
 		atomShape[a.Atom] = [2]int{a.W, a.C}
 	}
 	for _, fm := range fams {
-		trees(fm.atoms, fm.leaves, fm.nots, func(n *ref.Node) {
+		ref.Trees(fm.atoms, fm.leaves, fm.nots, func(n *ref.Node) {
 			if !n.WellDefined() {
 				skippedUndefined++
 				return
 			}
-			if _, _, cost := shape(n, atomShape); cost > 2000 {
+			if _, _, cost := ref.Shape(n, atomShape); cost > 2000 {
 				skippedExponential++
 				return
 			}
@@ -327,45 +271,3 @@ func firstLine(s string) string {
 	return s
 }
 
-// shape estimates the DNF shape (disjuncts w of c conditions) of the translation of n and the
-// total work spent in negations (c^w per negated node).
-func shape(n *ref.Node, atoms map[*ref.Atom][2]int) (w, c int, cost float64) {
-	switch n.Kind {
-	case ref.KAtom:
-		s := atoms[n.Atom]
-		return s[0], s[1], 0
-	case ref.KNot:
-		w1, c1, k := shape(n.Kids[0], atoms)
-		p := 1.0
-		for i := 0; i < w1; i++ {
-			p *= float64(c1)
-			if p > 1e9 {
-				break
-			}
-		}
-		nw := int(p)
-		if nw < 1 {
-			nw = 1
-		}
-		return nw, w1, k + p
-	case ref.KOr:
-		for _, k := range n.Kids {
-			w1, c1, k1 := shape(k, atoms)
-			w += w1
-			if c1 > c {
-				c = c1
-			}
-			cost += k1
-		}
-		return
-	default:
-		w = 1
-		for _, k := range n.Kids {
-			w1, c1, k1 := shape(k, atoms)
-			w *= w1
-			c += c1
-			cost += k1
-		}
-		return
-	}
-}
